@@ -529,6 +529,14 @@ def gen_C14(rng, tier):
                     c.query("Z", ops)
                 else:
                     c.execute(1, [], ops)
+        # several zero-column resultsets in one response (each counts its own rows)
+        ops = []
+        for k in [2, 3, 0, 1]:
+            ops.append(op_start([]))
+            ops += [rng.choice([op_end_row(), op_write_row([])]) for _ in range(k)]
+            ops.append(op_finish_one())
+        ops.append(op_no_more_results())
+        c.query("ZZ", ops) if rng.random() < 0.5 else c.execute(1, [], ops)
         c.ping()
         c.quit()
         out.append(c.build())
@@ -540,7 +548,7 @@ def gen_C13(rng, tier):
     ref = _json.load(open(_os.path.join(_os.path.dirname(_os.path.dirname(_os.path.abspath(__file__))), 'spec', 'data', 'mysql_errors_ref.json')))
     kinds = sorted(ref)
     msgs = [b"", b"plain message", b"x" * 600, b"\xff\xfe bad utf8 \x80", b"has # hash #42000", b"nul\x00inside", b"\xff", b"#", b"#HY000", b"\xc3\xa9t\xc3\xa9"]
-    sites = ["query", "prepare", "init", "use", "after0", "after1", "afterN", "bin_after1", "second", "exec"]
+    sites = ["query", "prepare", "init", "use", "after0", "after1", "afterN", "bin_after1", "second", "exec", "zero_cols", "bin_partial"]
     out = []
     out.append({"id": "C13-table", "kind": "errtable"})
     per = 16
@@ -576,6 +584,12 @@ def gen_C13(rng, tier):
                 c.query("Q", [op_start(cols)] + [op_write_row([v_int("i32", i)]) for i in range(rng.randint(2, 9))] + [op_finish_error(k, msg)])
             elif site == "bin_after1":
                 c.execute(1, [], [op_start(cols), op_write_col(v_int("i32", 1)), op_finish_error(k, msg)])
+            elif site == "zero_cols":
+                c.query("Q", [op_start([]), op_end_row(), op_end_row(), op_finish_error(k, msg)])
+            elif site == "bin_partial":
+                cols2 = [col("a", T_LONG), col("b", T_VAR_STRING)]
+                c.execute(1, [], [op_start(cols2), op_write_row([v_int("i32", 1), v_bytes(b"x", "str")]), op_write_col(v_int("i32", 2)),
+                                  op_write_col(v_bytes(b"y", "str")), op_finish_error(k, msg)])
             elif site == "second":
                 c.query("Q", [op_complete_one(1, 2), op_start([]), op_end_row(), op_finish_one(), op_error(k, msg)])
         c.ping()
@@ -806,6 +820,8 @@ def gen_C07(rng, tier):
 def gen_C15(rng, tier):
     out = []
     cols = [col("x", ty, fl) for ty in INT_TYPES for fl in (0, F_UNSIGNED)]
+    # other flag bits must not change how signedness is decided (ZEROFILL, NOT NULL, NUM, ...)
+    cols += [col("x", ty, fl) for ty in INT_TYPES for fl in (64, 64 | F_UNSIGNED, 1, 32768, 4096 | F_UNSIGNED)]
     cases = []
     for k in INT_RANGE:
         xs = boundary_ints(k)
@@ -859,7 +875,8 @@ def gen_C11(rng, tier):
             caps = (rng.getrandbits(32) | CAP_PROTOCOL_41) & ~CAP_SSL
             if rng.random() < 0.3:
                 caps = 0xa200 | rng.choice([0, CAP_CONNECT_DB, CAP_PLUGIN_AUTH, CAP_LONG_PASSWORD])
-            hs = handshake41(user, caps, tail, maxps=rng.getrandbits(32), collation=rng.getrandbits(8))
+            filler = [rng.getrandbits(8) for _ in range(23)] if rng.random() < 0.4 else None
+            hs = handshake41(user, caps, tail, maxps=rng.getrandbits(32), collation=rng.getrandbits(8), filler=filler)
         else:
             caps = rng.getrandbits(16) & ~CAP_PROTOCOL_41 & ~CAP_SSL
             hs = handshake320(user, caps, rng.getrandbits(24), tail)
@@ -888,6 +905,13 @@ def gen_C11(rng, tier):
         c = Conv("C11-ssl%02d" % i, mode="pipelined", hs=ssl_request(), tls=False)
         c.chunks, c.then = rand_chunks(rng)
         c.raw([rng.getrandbits(8) for _ in range(rng.randint(0, 50))], reply=False)
+        out.append(c.build())
+    # a complete 4.1 response that carries CLIENT_SSL, sent to a shim without TLS: refused, nothing served
+    for i in range(6 if tier == "quick" else 40):
+        c = Conv("C11-sslfull%02d" % i, mode="pipelined", hs=handshake41(rng.choice([b"root", b"", b"u" * 40]), caps=0xa200 | CAP_SSL), tls=False)
+        c.chunks, c.then = rand_chunks(rng)
+        c.cmd(com_query("SELECT 1"))
+        c.ping()
         out.append(c.build())
     # truncated / malformed handshakes: error, never a callback
     for i in range(30 if tier == "quick" else 300):
@@ -1442,13 +1466,13 @@ gen_C20 = _with_big(gen_C20, GB.gen_C20_big)
 
 
 # ------------------------------------------------------------------------------------------------
-def tls_conv(sid, rng, mode="lockstep", cert=False, server_cert_req=False, user=b"tlsuser", auth="accept", ncmd=3):
+def tls_conv(sid, rng, mode="lockstep", cert=False, server_cert_req=False, user=b"tlsuser", auth="accept", ncmd=3, repeat_ssl_flag=True):
     c = Conv(sid, mode=mode, hs=False, tls=True, auth=auth)
     c.client_tls = True
     c.client_cert = cert
     c.server_client_cert = server_cert_req
     c.raw(frame(ssl_request(), 1), reply=False)
-    c.raw(frame(handshake41(user, caps=0xa200 | CAP_SSL), 2), True)
+    c.raw(frame(handshake41(user, caps=(0xa200 | CAP_SSL) if repeat_ssl_flag else 0xa200), 2), True)
     if auth == "accept":
         for j in range(ncmd):
             r = rng.random()
@@ -1495,7 +1519,8 @@ def gen_C18(rng, tier):
     for i in range(60 if tier == "quick" else 800):
         c = tls_conv("C18-rnd%03d" % i, rng, mode=rng.choice(["lockstep", "pipelined"]), cert=rng.random() < 0.4,
                      server_cert_req=rng.random() < 0.5, user=rng.choice([b"u", b"", b"\xff\xfe", b"x" * 200]),
-                     auth=rng.choice(["accept", "accept", "accept", "reject"]), ncmd=rng.randint(0, 5))
+                     auth=rng.choice(["accept", "accept", "accept", "reject"]), ncmd=rng.randint(0, 5),
+                     repeat_ssl_flag=rng.random() < 0.6)
         c.chunks = [rng.choice([1, 2, 3, 5, 8, 13, 40, 100, 500, 0]) for _ in range(rng.randint(1, 80))]
         c.then = rng.choice([0, 0, 7, 64])
         out.append(c.build())
@@ -1632,6 +1657,21 @@ def _c16_extra(rng, tier):
             c.execute(2, [p_bytes(T_VAR_STRING, b"q")], [op_completed(2, 0)], rebind=False)
             c.execute(1, [p_int(T_TINY, 5, uns=True)], [op_completed(4, 0)])
             c.execute(1, [p_int(T_TINY, 200, uns=True)], [op_completed(5, 0)], rebind=False)
+        elif v == 2 and i % 6 == 2:
+            # types bound for a statement that was closed must not reach a new statement with another id
+            c.prepare("A", prep_ok(1, [col("a", T_LONGLONG)], []))
+            c.execute(1, [p_int(T_LONGLONG, 0xdeadbeef, uns=True)], [op_completed(1, 0)])
+            c.cmd(com_close(1))
+            c.prepare("B", prep_ok(2, [col("a", T_LONGLONG)], []))
+            c.execute(2, [p_int(T_LONGLONG, 5)], [op_completed(2, 0)], rebind=False)
+        elif v == 2 and i % 6 == 5:
+            # a rebind that changes only the signedness, and a rebind whose last parameter is NULL
+            c.prepare("S", prep_ok(3, [col("a", T_LONGLONG), col("b", T_LONG)], []))
+            c.execute(3, [p_int(T_LONGLONG, 2**64 - 1, uns=False), p_int(T_LONG, 7)], [op_completed(1, 0)])
+            c.execute(3, [p_int(T_LONGLONG, 2**64 - 1, uns=True), p_int(T_LONG, 2**32 - 1, uns=True)], [op_completed(2, 0)])
+            c.execute(3, [p_int(T_LONGLONG, 2**64 - 2, uns=True), p_int(T_LONG, 2**32 - 2, uns=True)], [op_completed(3, 0)], rebind=False)
+            c.execute(3, [p_bytes(T_VAR_STRING, b"ab"), p_null(T_VAR_STRING)], [op_completed(4, 0)])
+            c.execute(3, [p_bytes(T_VAR_STRING, b"cd"), p_bytes(T_VAR_STRING, b"ef")], [op_completed(5, 0)], rebind=False)
         else:
             # a statement prepared again under the same id starts without bound types
             c.prepare("S", prep_ok(6, [col("a", T_VAR_STRING)], []))
@@ -1685,7 +1725,8 @@ gen_C18 = (lambda f: (lambda rng, tier: f(rng, tier) + _c18_extra(rng, tier)))(g
 # second round of seeded defects
 gen_C01 = (lambda f: (lambda rng, tier: f(rng, tier) + R2.c01_extra(rng, tier)))(gen_C01)
 gen_C04 = (lambda f: (lambda rng, tier: f(rng, tier) + R2.c04_extra(rng, tier)))(gen_C04)
-gen_C05 = (lambda f: (lambda rng, tier: f(rng, tier) + R2.c05_extra(rng, tier)))(gen_C05)
+gen_C05 = (lambda f: (lambda rng, tier: f(rng, tier) + R2.c05_extra(rng, tier) + R2.c05_exact(rng, tier)))(gen_C05)
+gen_C20 = (lambda f: (lambda rng, tier: f(rng, tier) + R2.c20_wedge(rng, tier)))(gen_C20)
 gen_C06 = (lambda f: (lambda rng, tier: f(rng, tier) + R2.c06_extra(rng, tier)))(gen_C06)
 gen_C07 = (lambda f: (lambda rng, tier: f(rng, tier) + R2.c07_extra(rng, tier)))(gen_C07)
 gen_C12 = (lambda f: (lambda rng, tier: f(rng, tier) + R2.c12_extra(rng, tier)))(gen_C12)
